@@ -79,7 +79,7 @@ pub fn replay(fmt: &str, args: &[String]) {
 }
 
 // ---------------------------------------------------------------- recorders --
-const SV_NUM: &[&str] = &["0", "1", "2", "9", "10", "11", "99", "100", "4294967295", "4294967296", "18446744073709551615"];
+const SV_NUM: &[&str] = &["0", "1", "2", "9", "10", "11", "99", "100", "4294967295", "4294967296", "18446744073709551615", "18446744073709551614", "9223372036854775808"];
 const SV_ID: &[&str] = &["alpha", "beta", "rc", "a", "A", "B", "a0", "a-", "-", "0a", "x-1", "Z9", "z", "aa", "ab"];
 
 fn sv_random(rng: &mut StdRng) -> String {
@@ -102,7 +102,37 @@ fn sv_random(rng: &mut StdRng) -> String {
     s
 }
 
-const PEP_NUM: &[&str] = &["0", "1", "2", "3", "10", "007", "01", "100", "4294967295"];
+const PEP_NUM: &[&str] = &["0", "1", "2", "3", "10", "007", "01", "100", "4294967295", "4294967294", "2147483648", "65536", "004294967295"];
+
+/// the same version with ONE number replaced by a neighbour (n-1, n+1) or by a width boundary:
+/// adjacent versions are where a comparison key that loses information shows
+fn neighbour(s: &str, rng: &mut StdRng, max: u128) -> String {
+    let b = s.as_bytes();
+    let mut runs = vec![];
+    let mut i = 0;
+    while i < b.len() {
+        if b[i].is_ascii_digit() {
+            let j = (i..b.len()).find(|&j| !b[j].is_ascii_digit()).unwrap_or(b.len());
+            runs.push((i, j));
+            i = j;
+        } else {
+            i += 1;
+        }
+    }
+    if runs.is_empty() {
+        return s.to_string();
+    }
+    let (i, j) = runs[rng.gen_range(0..runs.len())];
+    let Ok(n) = s[i..j].parse::<u128>() else { return s.to_string() };
+    let m = match rng.gen_range(0..6) {
+        0 => n.saturating_sub(1),
+        1 | 2 => (n + 1).min(max),
+        3 => max,
+        4 => max - 1,
+        _ => if n == max { max - 1 } else if n == max - 1 { max } else { n + 1 },
+    };
+    format!("{}{}{}", &s[..i], m, &s[j..])
+}
 
 fn pep_random(rng: &mut StdRng) -> String {
     let num = |rng: &mut StdRng| PEP_NUM[rng.gen_range(0..PEP_NUM.len())];
@@ -213,7 +243,14 @@ pub fn record(fmt: &str, args: &[String]) {
             _ => {
                 let a = gen_one(&mut rng);
                 // related pairs are more interesting than independent ones
-                let b = if rng.gen_bool(0.3) { a.clone() } else { gen_one(&mut rng) };
+                let max = if fmt == "semver" { u64::MAX as u128 } else { u32::MAX as u128 };
+                let (a, b) = match rng.gen_range(0..10) {
+                    0..=1 => (a.clone(), a),
+                    2..=4 => { let b = neighbour(&a, &mut rng, max); (a, b) }
+                    // both at the top of the range, one step apart in one field
+                    5 => { let a2 = neighbour(&a, &mut rng, max); let b = neighbour(&a2, &mut rng, max); (a2, b) }
+                    _ => { let b = gen_one(&mut rng); (a, b) }
+                };
                 let ev = match compare(fmt, &a, &b) {
                     Ok((c, eq, rc)) => json!({"k": kc, "a": to_cps(&a), "b": to_cps(&b), "panic": false, "cmp": c, "eq": eq, "rcmp": rc}),
                     Err(_) => json!({"k": kc, "a": to_cps(&a), "b": to_cps(&b), "panic": true, "cmp": 0, "eq": false, "rcmp": 0}),
